@@ -204,7 +204,7 @@ Section AllSteps.
   Theorem step_no_capture sn s (f g : frame A) :
     NoDup (fcols f) -> NoDup (fcols g) -> good_names sn s f g -> pexec P sn s f g = plain P s f g.
   Proof.
-    intros Nf Ng [Gp Gw Gj]. destruct s as [ops gb|ops part order rev|how on]; simpl.
+    intros Nf Ng [Gp Gw Gj]. destruct s as [ops gb|ops part order rev|how on nk]; simpl.
     - apply project_no_capture. eapply good_project_sub; [|exact Gp]. intros c Hc. unfold user_names. apply in_or_app. right. apply in_or_app. right. exact Hc.
     - apply wextend_no_capture. eapply good_wextend_sub; [|exact Gw]. intros c Hc. unfold user_names. apply in_app_or in Hc. destruct Hc as [H|H].
       + apply in_or_app. left. exact H.
@@ -296,3 +296,49 @@ Theorem outside_reserved_tables_not_captured q :
   (forall n, In n (wq_tables q) -> is_reserved STable n = false) -> captured_refs q = [].
 Proof. intros W V T. apply with_no_capture; [exact W|]. intros n Hn Hc. specialize (T n Hn). rewrite (V n Hc) in T. discriminate. Qed.
 Local Close Scope string_scope.
+
+(* ------------------------------------------------------------------ SQL: the view numbering of to_sql (161d83f) *)
+Lemma to_uint_nonnil n : Nat.to_uint n <> Nil.
+Proof.
+  destruct n as [|n]; [vm_compute; discriminate|]. intros E. apply (f_equal Nat.of_uint) in E. rewrite Unsigned.of_to in E. simpl in E. discriminate.
+Qed.
+
+Lemma parse_nat_dec i : parse_nat (dec i) = Some i.
+Proof.
+  unfold parse_nat. rewrite all_digits_dec. unfold dec. rewrite NilEmpty.usu. simpl. rewrite Unsigned.of_to.
+  destruct (NilEmpty.string_of_uint (Nat.to_uint i)) eqn:E; [|reflexivity].
+  exfalso. apply (to_uint_nonnil i). destruct (Nat.to_uint i); simpl in E; try discriminate. reflexivity.
+Qed.
+
+Lemma fold_max_ge l x : In x l -> x <= fold_right Nat.max 0 l.
+Proof. induction l as [|y t IH]; simpl; [tauto|]. intros [->|H]; [lia|]. specialize (IH H). lia. Qed.
+
+(* no view the generator can produce for these tables is one of the tables *)
+Theorem generated_view_is_no_table tables p i t :
+  In p view_kinds -> In t tables -> first_view_id tables <= i -> t <> (p ++ dec i)%string.
+Proof.
+  intros Hp Ht Hi E. subst t.
+  assert (H : In (S i) (flat_map (fun t => map S (view_numbers t)) tables)).
+  { apply in_flat_map. exists (p ++ dec i)%string. split; [exact Ht|]. apply in_map. unfold view_numbers. apply in_flat_map. exists p. split; [exact Hp|].
+    rewrite strip_prefix_app, parse_nat_dec. left. reflexivity. }
+  apply fold_max_ge in H. unfold first_view_id in Hi. lia.
+Qed.
+
+Lemma generated_view_name_spec tables v : generated_view_name tables v = true -> exists p i, In p view_kinds /\ first_view_id tables <= i /\ forall t, In t tables -> t <> v.
+Proof.
+  unfold generated_view_name. intros H. apply existsb_exists in H. destruct H as [p [Hp H]].
+  destruct (strip_prefix p v) as [d|] eqn:Es; [|discriminate]. destruct (parse_nat d) as [n|] eqn:Ep; [|discriminate]. apply Nat.leb_le in H.
+  exists p, n. split; [exact Hp|]. split; [exact H|]. intros t Ht E. subst t.
+  assert (Hin : In (S n) (flat_map (fun t => map S (view_numbers t)) tables)).
+  { apply in_flat_map. exists v. split; [exact Ht|]. apply in_map. unfold view_numbers. apply in_flat_map. exists p. split; [exact Hp|]. rewrite Es, Ep. left. reflexivity. }
+  apply fold_max_ge in Hin. unfold first_view_id in H. lia.
+Qed.
+
+(* a WITH query whose views carry names the generator produces for its tables resolves every name as meant: no guard on
+   how the user's tables are called *)
+Theorem with_query_numbered_no_capture q :
+  wq_wellformed q = true -> forallb (generated_view_name (wq_tables q)) (w_ctes q) = true -> captured_refs q = [].
+Proof.
+  intros W G. apply with_no_capture; [exact W|]. intros n Hn Hc. rewrite forallb_forall in G.
+  destruct (generated_view_name_spec _ _ (G n Hc)) as [p [i [_ [_ D]]]]. exact (D n Hn eq_refl).
+Qed.
